@@ -972,6 +972,18 @@ func (m *lfsModule) handleHTTPUploadComplete(w http.ResponseWriter, r *http.Requ
 		m.lfsWriteHTTPError(w, requestID, session.Topic, http.StatusBadRequest, "invalid_request", "parts required")
 		return
 	}
+	// The envelope describes every uploaded byte, so the object must be assembled
+	// from every uploaded part, in order (S3 itself accepts any ascending subset).
+	if len(req.Parts) != len(session.Parts) {
+		m.lfsWriteHTTPError(w, requestID, session.Topic, http.StatusBadRequest, "invalid_part", "part list must name every uploaded part exactly once")
+		return
+	}
+	for i, part := range req.Parts {
+		if part.PartNumber != int32(i+1) {
+			m.lfsWriteHTTPError(w, requestID, session.Topic, http.StatusBadRequest, "invalid_part", "part list must name every uploaded part exactly once, in ascending order")
+			return
+		}
+	}
 
 	completed := make([]types.CompletedPart, 0, len(req.Parts))
 	for _, part := range req.Parts {
